@@ -96,6 +96,12 @@ func TypeString(ty cty.Type) string {
 			names = append(names, name)
 		}
 		sort.Strings(names)
+		if len(names) > 1 && names[0] == "for" {
+			// An object constructor whose first key is literally "for" would
+			// be read back as a for expression, so that attribute is written
+			// last instead. (Attribute order is not significant.)
+			names = append(names[1:], "for")
+		}
 		first := true
 		for _, name := range names {
 			aty := atys[name]
